@@ -258,6 +258,29 @@ CLAIMED = {
         technique="explicit TLA+ specification of the Viterbi optimum evaluated by TLC on recorded networks and frame scores "
                   "(trace validation against an exact oracle); TLC model checking of the recursion on a synthetic network",
         design="4/C02"),
+    "C16": dict(
+        text="TLC proves exhaustively that the transcription of decoder_add_word / dict_add_word / dict2pid_add_word "
+             "(reallocation growth, slot written before the decision, base lookup, alternate link, hash registration, lazy "
+             "context tables, search re-initialisation) refines the append-only dictionary specification DictAbs and keeps "
+             "hash/chain/table invariants. Quick: 8 spellings incl. the empty one, x(, a(2), a(3), A x 4 pronunciations incl. "
+             "empty, unknown and one-letter phones, <= 3 words; thorough: 11 x 5, <= 4; 6 spellings to exhaustion; both case "
+             "modes; update on/off; grammar loads. Each of the four historical defects sits behind a named deviation switch "
+             "that must break its invariant. The model's complete state graph is turned into edge tours executed through "
+             "decoder_add_word on a real decoder together with per-class probes, seeded random histories, runs growing the "
+             "table past S3DICT_INC_SZ and runs using the new words (JSGF, alignment text, decode of goforward.raw). After "
+             "every call the return value and lookup, id, pronunciation, spelling, base and alternate links of every "
+             "spelling in play are recorded and validated event by event by TLC against DictAbs.",
+        note="Trusted: TLC; the recorder harness/dict/dict_drv.c (public API results and public struct fields of decoder_s / "
+             "dict_s only); the FNV digest of the initially loaded entries computed by the recorder; the ASan build. "
+             "Assumptions: spellings have at most one trailing parenthesised suffix; the case mode is read from dict_t.nocase; "
+             "a JSGF grammar naming an absent word is not loaded (its failure path belongs to C09); a hypothesis is demanded "
+             "only for sentences whose pronunciations concatenate to the audio's phones; real-code coverage is the executed "
+             "tours and histories, not all histories; a Python replica of DictAbs names violation keys and plans inputs but "
+             "never decides a violation. Four genuine defects found and repaired (fix: 951b2a3, b0a77d4, 25817f0).",
+        technique="TLA+ refinement (DictImpl => DictAbs) with named deviation switches, checked by TLC; state-graph edge "
+                  "tours, probes, random histories and growth/use runs replayed on a real decoder, one process per execution; "
+                  "TLC trace validation of every recorded execution",
+        design="4/C16"),
 }
 
 PENDING = "not built yet in this round (planned, see DESIGN.md section 4); no check is registered, so nothing is claimed"
